@@ -28,7 +28,7 @@ FINDING_IDS = ["C18-empty-value-matcher-dropped", "C18-absent-label-matcher-igno
                "C18-rate-subsecond-range-integer-division", "C18-range-query-aggregation-over-offset",
                "C18-range-function-step-greater-than-range", "C18-resets-empty-window-zero",
                "C18-absent-over-time-offset-range-query", "C18-absent-negative-matcher-on-absent-label",
-               "C18-range-binop-pairs-next-series-after-end"]
+               "C18-range-binop-pairs-next-series-after-end", "C18-instant-range-function-drops-series-ending-stale"]
 
 
 _PORT_LOCK = None   # keeps the flock on the chosen port block for the life of this process
@@ -179,7 +179,9 @@ def main(ck):
         "/api/v1/query_range of a single-node ts-server built from the working tree (default look-back 5m)",
         "floats: values compared with relative tolerance 1e-9 (absolute floor 1e-12); label sets and timestamps exactly; "
         "the model computes over exact rationals, cases on an extrapolation-threshold tie are not used for a verdict",
-        "stale markers (stale NaN) and native histograms are not generated",
+        "one data set in four carries NaN / +Inf / -Inf sample values and staleness markers (through remote write and the upstream "
+        "appender alike); the Coq model is evaluated only on cases whose samples and results are finite (and quantile's +-Inf); "
+        "native histograms are not generated",
         "Coq theorems assume strictly increasing sample timestamps inside a series and a positive range",
     ]
     ck.cov["trusted_base"] = ["Coq 8.16.1 kernel + vm_compute (cases evaluation, Examples, refutation witness)",
